@@ -8,6 +8,6 @@ GNext == /\ steps < MaxSteps
          /\ steps' = steps + 1
          /\ \E o \in Alphabet : Act(o) /\ hist' = Append(hist, o)
 GSpec == GInit /\ [][GNext]_gvars
-Emit == CSVWrite("%1$s", <<ToJson([ops |-> hist, code |-> code, allowed |-> AllowedCode, base |-> base, rets |-> rets,
+Emit == CSVWrite("%1$s", <<ToJson([ops |-> hist, code |-> code, allowed |-> AllowedCode, base |-> base, rets |-> [x \in 1..Len(rets) |-> rets[x].r],
                                    under |-> under])>>, "coderec_vectors.ndjson")
 =============================================================================
